@@ -1,6 +1,87 @@
-//! C03 — stub (to be written; see /verif/harness/AUTHORING.md and DESIGN.md §3 C03)
-use vengine::Property;
+//! C03 — prediction is a per-sample function, identical through every calling form.
+//!
+//! One sub-check per predictor type. Each case fits a small model on generated, well-posed data
+//! (seeded), builds a query batch (training rows, fresh rows, duplicates; 0, 1 or 2..=12 rows) and
+//! hands both to the generic oracle in `driver`, which compares
+//!   * the batch, a permutation of it and a recomposition with repeated / omitted rows against the
+//!     prediction of each row alone,
+//!   * eight further memory layouts of the same batch (owned: Fortran order, strided slice of a wider
+//!     array, reversed rows; views: standard, transposed, row-strided, column-strided, reversed),
+//!   * on every one of those arrays the five calling forms among themselves, including that the
+//!     dataset forms hand the records back unchanged,
+//! bit-exactly where the model does no layout dependent arithmetic and with a stated tolerance
+//! where it multiplies matrices. The adapters add what is specific to a type: an independent
+//! recomputation from the public parameters where those exist, and the wrapper rules of the statement.
+
+pub mod case;
+pub mod driver;
+pub mod forms;
+pub mod models_classif;
+pub mod models_cluster;
+pub mod models_linear;
+pub mod models_reduce;
+pub mod models_svm;
+pub mod models_wrap;
+pub mod util;
+
+use case::{case_strategy, Case, Dom, DOM_COUNTS, DOM_ISO, DOM_P2, DOM_STD, DOM_SVM};
+use vengine::{prop_sub, Obs, Property, SubCheck, Tier};
+
+const QUICK: u32 = 2500;
+const THOROUGH: u32 = 40000;
+
+fn sub(name: &'static str, dom: Dom, check: fn(&Case, &mut Obs)) -> Box<dyn SubCheck> {
+    prop_sub(name, QUICK, THOROUGH, move |t: Tier| case_strategy(t, dom), check)
+        .chunks(4)
+        .require(&["batch_multi_row", "batch_single_row", "batch_empty", "perm_nontrivial", "layout_owned_strided"])
+}
 
 pub fn property() -> Property {
-    Property { id: "C03", rule: "", assumptions: vec![], subs: vec![] }
+    Property {
+        id: "C03",
+        rule: "one sub-check per predictor type (22 types incl. the three composing wrappers); a case = generated training \
+               matrix (n 12..=40, p 1..=4, SVM n<=30, isotonic p=1, multinomial NB counts), direction vectors and noise from \
+               which targets/labels/blobs are derived, model options, RNG seed, and a query batch of m in {0,1,2..=12} rows \
+               drawn from training rows, fresh rows (scaled beyond the training range) and duplicates, plus permutation keys \
+               and a recomposition index list. Reference = prediction of each row alone; compared with the batch, its \
+               permutation, a recomposition with repeats, 3 owned and 5 borrowed memory layouts, five calling forms on each. \
+               Non-trivial = m >= 2 (every such case is evaluated under a non-identity permutation whenever the keys give one \
+               and under 8 non-standard layouts); distinct = distinct canonical JSON of the case",
+        assumptions: vec![
+            format!("REL_TOL = {:e}: values whose arithmetic legitimately depends on batch shape or layout (matrix-matrix products via matrixmultiply: GMM, multinomial logistic, PCA, PLS, multi-task elastic net; matrix-vector products across layouts: OLS, GLM, elastic net, logistic, FTRL, multinomial NB) are compared with |a-b| <= REL_TOL*(1+|a|+|b|+scale), scale = sum of |x_j*w_j| + |intercept| from the public parameters where available", driver::REL_TOL),
+            format!("REL_TOL_F32 = {:e} (two f32 ulps) replaces REL_TOL for Pr outputs (FTRL, Platt) whose f64 score is rounded to f32", driver::REL_TOL_F32),
+            "bit-exact comparisons: k-means, decision tree, isotonic, all four SVM kinds (row loops with sequential sums) in every layout; matrix-vector models batch-vs-single-row / permutation / recomposition within standard layout; the five calling forms on one array for every model".into(),
+            "labels must agree exactly unless the model's own margin for that row is a tie: GMM |responsibility difference| <= 1e-9 (from predict_proba), logistic |sigmoid(score)-threshold| and multinomial logit gaps <= 1e-9 relative (recomputed from public params), naive Bayes joint log-likelihood gaps <= 1e-9 relative (recomputed from the training data; exact ties are broken by HashMap order inside linfa), MultiClassModel member probabilities within 2.5e-7".into(),
+            "a fit that returns Err or panics is counted as not judged (fitting is the subject of C04/C09-C18); a fitted model with non-finite parameters or non-finite single-row predictions likewise".into(),
+            "independent references use naive f64 code with tolerance 1e-10*(1+|a|+|b|+scale); FTRL/Platt probabilities (f32) are compared with absolute 1e-6 / 3e-6".into(),
+            "Platt A and B are recovered by calling the public platt_newton_method on the same inputs fit_with uses; monotonicity allows 4 f32 ulps because e/(1+e) evaluated in f32 is not exactly monotone".into(),
+            "queries stay finite and within a few standard deviations of the training data; NaN/inf inputs and feature-count mismatches (documented assertion panics) are not generated".into(),
+            "FastICA (owned Array2 only, not in the statement's list) is not covered; sparse-kernel SVMs are not covered".into(),
+            "trusted base: ndarray slicing/striding semantics, linfa's DatasetBase::new, proptest".into(),
+        ],
+        subs: vec![
+            sub("gmm", DOM_P2, models_cluster::check_gmm),
+            sub("svm_pr", DOM_SVM, models_svm::check_svm_pr),
+            sub("multiclass", DOM_SVM, models_wrap::check_multiclass),
+            sub("multilogistic", DOM_STD, models_classif::check_multilogistic),
+            sub("tweedie", DOM_STD, models_linear::check_tweedie),
+            sub("logistic", DOM_STD, models_classif::check_logistic),
+            sub("svm_bool", DOM_SVM, models_svm::check_svm_bool),
+            sub("svm_reg", DOM_SVM, models_svm::check_svm_reg),
+            sub("svm_oneclass", DOM_SVM, models_svm::check_svm_oneclass),
+            sub("multitarget", DOM_SVM, models_wrap::check_multitarget),
+            sub("platt", DOM_SVM, models_wrap::check_platt),
+            sub("kmeans", DOM_STD, models_cluster::check_kmeans),
+            sub("pls", DOM_P2, models_reduce::check_pls),
+            sub("pca", DOM_STD, models_reduce::check_pca),
+            sub("mt_elasticnet", DOM_STD, models_linear::check_mt_elasticnet),
+            sub("elasticnet", DOM_STD, models_linear::check_elasticnet),
+            sub("ols", DOM_STD, models_linear::check_ols),
+            sub("isotonic", DOM_ISO, models_linear::check_isotonic),
+            sub("tree", DOM_STD, models_classif::check_tree),
+            sub("gaussian_nb", DOM_STD, models_classif::check_gaussian_nb),
+            sub("multinomial_nb", DOM_COUNTS, models_classif::check_multinomial_nb),
+            sub("ftrl", DOM_STD, models_classif::check_ftrl),
+        ],
+    }
 }
